@@ -164,6 +164,8 @@ class Interp:
         self.hazards = []             # (node, text) substring tests whose outcome depends on user text
         self.dtype_hazards = []      # stores of real values into buffers typed like a caller's container
         self.replace_hazards = []    # (node, old, field, remaining count): str.replace may reach into user text
+        self.generic_point = False   # decide == of non-identical symbolic numbers as False (generic values)
+        self.real_checked = set()    # root atoms that went through np.isreal
         self.re_hazards = []         # (node, pattern, field, what, spelling): regex outcome depends on user text
         from .absre import NumPolicy
         self.num_policy = NumPolicy()
@@ -680,6 +682,9 @@ class Interp:
                 return True
             if (a - b).is_const():
                 return False
+            if self.generic_point:
+                # two expressions that are not identically equal differ for all values outside a set of measure zero
+                return False
             raise Unsupported('equality of symbolic numbers inside containers')
         if type(a) is not type(b):
             return False
@@ -742,7 +747,13 @@ class Frame:
         if isinstance(st, ast.AugAssign):
             cur = self.ev(_load(st.target))
             v = self.ev(st.value)
-            self.assign(st.target, I.binop(_OPS[type(st.op)], cur, v))
+            res = I.binop(_OPS[type(st.op)], cur, v)
+            if isinstance(cur, ListV) and isinstance(res, ListV) and isinstance(st.target, ast.Name) and \
+                    not getattr(cur, 'is_set', False):
+                # lists and numpy arrays are updated in place: every other name bound to the object sees it
+                cur.items[:] = list(res.items)
+                return
+            self.assign(st.target, res)
             return
         if isinstance(st, ast.Return):
             raise _Return(self.ev(st.value) if st.value is not None else None)
@@ -1236,6 +1247,8 @@ class Frame:
             raise _RaisedExc(Raised('TypeError', n))        # not subscriptable
         if isinstance(base, (ListV, str)) and isinstance(idx, str):
             raise _RaisedExc(Raised('TypeError', n))        # list/str indices must be integers
+        if isinstance(base, Elem) and isinstance(idx, Elem) and getattr(idx, 'mask_all', False):
+            return base
         if isinstance(base, Elem):
             raise Unsupported('indexing into a vector of unknown length', n, self.module.relpath)
         if isinstance(base, Rat) and isinstance(idx, Rat):
@@ -1818,9 +1831,18 @@ def builtin_call(I, fr, name, args, kwargs, n):
                     pass        # symbolic content: the text itself is not modelled
         return '<str>'
     if name == 'dict':
-        d = DictV(kwargs)
-        if args and isinstance(args[0], DictV):
-            d.d.update(args[0].d)
+        d = DictV()
+        if args:
+            a0 = args[0]
+            if isinstance(a0, DictV):
+                d.d.update(a0.d)
+                d.keyobj.update(a0.keyobj)
+            elif isinstance(a0, ListV) and all(isinstance(p_, ListV) and len(p_) == 2 for p_ in a0.items):
+                for p_ in a0.items:
+                    d.d[d.nkey(p_.items[0])] = p_.items[1]
+            else:
+                raise Unsupported('dict() of %r' % (a0,), n)
+        d.d.update(kwargs)          # keyword arguments override the mapping
         return d
     if name in BUILTIN_EXC:
         return Raised(name, n)
@@ -2594,8 +2616,32 @@ def _np_roots(I, fr, args, kwargs, n):
 def _np_isreal(I, fr, args, kwargs, n):
     v = args[0]
     if isinstance(v, Rat):
+        for a_ in v.atoms():
+            I.real_checked.add(a_)
         return True       # the analysis follows the real roots
+    if isinstance(v, Elem) and isinstance(v.r, Rat):
+        for a_ in v.r.atoms():
+            I.real_checked.add(a_)
+        m_ = Elem(C(1))
+        m_.mask_all = True          # a mask that keeps the (real) entries the analysis follows
+        return m_
     raise Unsupported('np.isreal operand', n)
+
+
+def _np_real(I, fr, args, kwargs, n):
+    """real part: the identity on values already known to be real; of a polynomial root that has not been tested
+    with np.isreal it is a different number (the real part of a complex-conjugate pair is no root)"""
+    v = args[0]
+    r = v.r if isinstance(v, Elem) else v
+    if isinstance(r, Rat) and r.is_monomial():
+        at = list(r.atoms())
+        if len(at) == 1 and at[0] in I.roots and r.eq(Rat.atom(at[0])) and at[0] not in I.real_checked \
+                and not at[0].startswith('RE{'):
+            name = 'RE{%s}' % at[0]
+            I.roots[name] = I.roots[at[0]]
+            I.D.kind[name] = 'root'
+            return Elem(Rat.atom(name)) if isinstance(v, Elem) else Rat.atom(name)
+    return v
 
 
 def _np_minmax(which):
@@ -2893,6 +2939,18 @@ def _np_full_like(I, fr, args, kwargs, n):
     raise Unsupported('np.full_like operand', n)
 
 
+def _np_full(I, fr, args, kwargs, n):
+    shape = _arg(args, kwargs, 0, 'shape')
+    fill = _arg(args, kwargs, 1, 'fill_value')
+    if isinstance(shape, Rat) and shape.is_const():
+        r = ListV([fill] * _as_int(shape, n))
+        r.is_array = True
+        return r
+    if isinstance(shape, Rat):
+        return Elem(fill)           # a vector of symbolic length, every entry the same value
+    raise Unsupported('np.full shape', n)
+
+
 def _quad(I, fr, args, kwargs, n):
     fn = _arg(args, kwargs, 0, 'func')
     lo = _arg(args, kwargs, 1, 'a')
@@ -2960,7 +3018,7 @@ NATIVE = {
     'numpy.linspace': _np_linspace,
     'inspect.isclass': _isclass,
     'numpy.isreal': _np_isreal,
-    'numpy.real': _identity,
+    'numpy.real': _np_real,
     'numpy.min': _np_minmax('min'),
     'numpy.max': _np_minmax('max'),
     'numpy.concatenate': _np_concatenate,
@@ -2979,6 +3037,7 @@ NATIVE = {
     'copy.deepcopy': _copy,
     'numpy.atleast_1d': _np_atleast_1d,
     'numpy.full_like': _np_full_like,
+    'numpy.full': _np_full,
     'scipy.integrate.quad': _quad,
 }
 
